@@ -76,7 +76,7 @@ theorem h3_in_use_not_closed_by_idle_sweep (ops : List Op) (r c : Nat)
 host 8 gets its own; an idle sweep while 2 is still in flight keeps client 0; after the
 connection of client 0 has died, request 4 for host 7 gets a fresh client. -/
 def exOps : List Op :=
-  [.get 1 7 false, .dialDone 0 true, .get 2 7 false, .get 3 8 false, .dialDone 1 true,
+  [.get 1 7 false, .dialDone 0 .ok, .get 2 7 false, .get 3 8 false, .dialDone 1 .ok,
    .finish 1 false, .finish 3 false, .closeIdle]
 
 example : (run {} exOps).clients = [(7, 0)] ∧ (run {} exOps).rst 2 = .holding 0 ∧
@@ -90,9 +90,16 @@ example : (runOut {} (exOps ++ [.connDies 0, .get 4 7 false])).getLast? = some (
 request 2 has already replaced it by client 1 — client 1 is forgotten by the cache while 2 uses it
 (it is not closed: it serves 2 to the end and is never reused). -/
 example :
-    let s := run {} [.get 1 7 false, .dialDone 0 true, .connDies 0, .get 2 7 false, .dialDone 1 true,
+    let s := run {} [.get 1 7 false, .dialDone 0 .ok, .connDies 0, .get 2 7 false, .dialDone 1 .ok,
                      .finish 1 true]
     s.clients = [] ∧ s.rst 2 = .holding 1 ∧ (s.cl 1).closedByUs = false ∧ (s.cl 1).host = some 7 := by
   decide
+
+/-- The request that started the dial gives up: the dial is cancelled with it, the other waiter
+starts over and dials again under its own context (client 1) instead of failing. -/
+example :
+    let s := run {} [.get 1 7 false, .get 2 7 false, .giveUp 1, .dialDone 0 .cancelled, .retryDial 2,
+                     .get 2 7 false]
+    s.clients = [(7, 1)] ∧ s.rst 2 = .holding 1 ∧ s.rst 1 = .over ∧ (s.cl 1).creator = 2 := by decide
 
 end Req.Props.C09H3
